@@ -7,6 +7,7 @@ import HipVerif.Props.C03
 import HipVerif.Props.C04
 import HipVerif.Props.C04Protocol
 import HipVerif.Props.C05
+import HipVerif.Props.C05Atomics
 import HipVerif.Props.C06
 import HipVerif.Props.C06Doors
 import HipVerif.Props.C06Conv
